@@ -149,9 +149,10 @@ func framing(fields []Field, isResponse bool) (kind string, length int64, err er
 		if len(codings) == 0 {
 			return "", 0, malformed("empty Transfer-Encoding")
 		}
-		if len(cl) > 0 {
-			return "", 0, malformed("both Transfer-Encoding and Content-Length")
-		}
+		// Transfer-Encoding with Content-Length: RFC 7230 3.3.3 rule 3 - the transfer coding
+		// overrides the length (the sender is at fault, the recipient may also reject; a
+		// forwarder must drop the Content-Length). Framing: by the transfer coding.
+		_ = cl
 		if codings[len(codings)-1] == "chunked" {
 			for _, c := range codings[:len(codings)-1] {
 				if c == "chunked" {
